@@ -103,12 +103,41 @@ def assignment_lines(text: str) -> List[str]:
     return [l for l in text.splitlines() if ASSIGN_RE.match(l)]
 
 
-def check_one(fam: str, files, model, names, assign, r: common.Result) -> None:
+def clean_destinations() -> None:
+    d = impl.wdir()
+    for f in os.listdir(d):
+        if f.startswith("c10."):
+            os.unlink(os.path.join(d, f))
+
+
+def check_one(fam: str, files, model, names, assign, r: common.Result, prev=None) -> None:
     import kconfgen.core as kg
 
     ptext = files["Kconfig"]
-    case = {"family": fam, "program": ptext, "files": files, "names": names, "assign": list(assign)}
-    label = f"[{fam} {dict((n, v) for n, v in zip(names, assign) if v is not None)}]"
+    # `previous`: the assignment whose minimal configs are still in the destination files when this one is written
+    case = {"family": fam, "program": ptext, "files": files, "names": names, "assign": list(assign), "previous": list(prev) if prev is not None else None}
+    label = f"[{fam} {dict((n, v) for n, v in zip(names, assign) if v is not None)}{' after ' + str(dict((n, v) for n, v in zip(names, prev) if v is not None)) if prev is not None else ''}]"
+    d = impl.wdir()
+    clean_destinations()
+    if prev is not None:
+        # the destinations hold the minimal configs of the previous assignment of the enumeration (self-contained:
+        # written here from scratch, so that a replay of (previous, assign) sees exactly the same files)
+        try:
+            pi = impl.Inst(files)
+            for n, v in zip(names, prev):
+                if v is not None:
+                    pi.k.syms[n].set_value(v)
+            for labels in (False, True):
+                for norm in (False, True):
+                    pi.k.write_min_config(os.path.join(d, f"c10.min.{int(labels)}{int(norm)}"), labels=labels, normalize_unset=norm)
+            for env_labels in ("0", "1"):
+                os.environ["ESP_IDF_KCONFIG_MIN_LABELS"] = env_labels
+                try:
+                    kg.write_min_config(pi.k, os.path.join(d, f"c10.kg{env_labels}"))
+                finally:
+                    os.environ.pop("ESP_IDF_KCONFIG_MIN_LABELS", None)
+        except Exception:  # noqa: BLE001 -- reported when that assignment is the current one
+            clean_destinations()
     inst = impl.Inst(files)
     k = inst.k
     for n, v in zip(names, assign):
@@ -116,20 +145,22 @@ def check_one(fam: str, files, model, names, assign, r: common.Result) -> None:
             k.syms[n].set_value(v)
     vals = inst.values()
     texts: Dict[str, str] = {}
-    d = impl.wdir()
     try:
         for labels in (False, True):
             for norm in (False, True):
-                texts[f"labels={labels},normalize={norm}"] = inst.min_text(labels=labels, normalize_unset=norm)
+                # one destination per variant, re-used for every assignment of the program (as a build does): what the
+                # NEXT reader sees is the file, not the string the writer computed
+                p_ = os.path.join(d, f"c10.min.{int(labels)}{int(norm)}")
+                k.write_min_config(p_, labels=labels, normalize_unset=norm)
+                texts[f"labels={labels},normalize={norm}"] = open(p_).read()
         for env_labels in ("0", "1"):
-            p = os.path.join(d, "c10.kg")
+            p = os.path.join(d, f"c10.kg{env_labels}")
             os.environ["ESP_IDF_KCONFIG_MIN_LABELS"] = env_labels
             try:
                 kg.write_min_config(k, p)
             finally:
                 os.environ.pop("ESP_IDF_KCONFIG_MIN_LABELS", None)
             texts[f"kconfgen,labels={env_labels}"] = open(p).read()
-            os.unlink(p)
     except Exception as e:  # noqa: BLE001
         import traceback
 
@@ -199,8 +230,10 @@ def run_item(item) -> common.Result:
     DOM = DOM_Q if tier == "quick" else DOM_T
     doms = [DOM[model.syms[n].type] for n in names]
     n = 0
+    prev = None
     for assign in itertools.product(*doms):
-        check_one(fam, files, model, names, assign, r)
+        check_one(fam, files, model, names, assign, r, prev)
+        prev = assign
         n += 1
     r.sample = {"family": fam, "program": files["Kconfig"], "assignments": n}
     return r
@@ -208,5 +241,5 @@ def run_item(item) -> common.Result:
 
 def replay(case) -> List[dict]:
     r = common.Result()
-    check_one(case["family"], case["files"], None, case["names"], tuple(case["assign"]), r)
+    check_one(case["family"], case["files"], None, case["names"], tuple(case["assign"]), r, case.get("previous"))
     return r.viols
